@@ -114,6 +114,25 @@ normal representation, and `Mul::from_dict` rebuilds it -/
 def mulOperandOK (a : Expr) : Bool :=
   exact a && nrMB (reprM a) && eqE (mulFromDict (reprM a).1 (reprM a).2) a
 
+/-- a factor `k ** e` of the symbolic-exponent fragment: opaque exact base, exponent any non-zero
+summand of the safe Add fragment (`addOperandOK`) -/
+def mfacOKS (p : Expr × Expr) : Bool :=
+  atomBase p.1 && exact p.1 && addOperandOK p.2 && !(isInteger p.2 && numIsZero p.2)
+
+def nrSB (s : Expr × Dict) : Bool :=
+  exNum s.1 && !numIsZero s.1 && keysSorted s.2 && s.2.all mfacOKS
+
+/-- a factor of the symbolic-exponent fragment (contains the numeric-exponent fragment) -/
+def mulOperandOKS (a : Expr) : Bool :=
+  exact a && nrSB (reprM a) && eqE (mulFromDict (reprM a).1 (reprM a).2) a
+
+/-- syntactic description of the symbolic-exponent fragment (mirrored by harness/c04.cpp): `mulOperandSafe`
+without numeric radicals and without zero -/
+def mulFragSyntacticS : Expr → Bool
+  | .mul _ fs => fs.all (fun p => atomBase p.1 && addOperandSafe p.2)
+  | .pow b e => atomBase b && addOperandSafe e
+  | a => (a.isNum && !isNumZero a) || atomBase a
+
 /-- syntactic description of the numeric-exponent fragment (mirrored by harness/c04.cpp for its
 statistics): a non-zero Number, an opaque base, or powers of opaque bases with numeric exponents -/
 def mulFragSyntactic : Expr → Bool
